@@ -11,7 +11,6 @@ statement served from the compiled cache).  Each cell carries the value of its o
 row._mapping[key], row.<name>, row._mapping[column / label object], Result.columns(int), Result.columns(*keys) and
 mappings() must give the value of the position the specification names, or raise the exception class it names.
 """
-import json
 import os
 import random
 import time
